@@ -43,6 +43,12 @@ theorem enumArg_str (ty : EnumTy) (s : String) :
       (s ∈ Gen.setterStrings ty ∧ (valueIdx (Gen.members (Gen.setterConv ty)) s).isSome) := by
   simp only [enumArg]; split <;> simp_all
 
+/-- the generated wrapper shape writes the saved size back after EVERY outcome of the wrapped
+    function: a return, an exception derived from `Exception`, and one that is not
+    (`KeyboardInterrupt`, `SystemExit`, `GeneratorExit`, direct subclasses of `BaseException`) -/
+theorem tempRestores_every_outcome (o : Outcome) : Gen.tempRestores o = true := by
+  cases o <;> rfl
+
 theorem sigValLower_eq : Gen.sigValLower = 0 := rfl
 theorem mcSizeLower_eq : Gen.mcSizeLower = 0 := rfl
 
